@@ -326,6 +326,50 @@ def r3_ticks(L, repo):
         L.require("C02.R3", F, fn, "sender passed to forward_msg is the ticking transceiver", "self",
                   canon(c.args[0]) if c.args else None, line=c.lineno)
     # dispatcher
+    if _r3_dispatch_fold(L, repo):
+        L.structural("C02.R3 shape of the tick dispatcher (one unconditional clck_tick call in a loop over the global list)",
+                     _r3_dispatch_shape, L, repo)
+    else:
+        _r3_dispatch_shape(L, repo)
+
+
+def _r3_dispatch_fold(L, repo):
+    """Application.clck_handler folded for two consecutive ticks with three registered transceivers (their clck_tick as
+    recording oracles): every transceiver of the global list ticks exactly once per frame, with the application's
+    forwarder and the handler's frame number.  -> False when the handler does not fold"""
+    from consteval import Ev, Opaque, Unknown, Raised
+    ci, ch = repo.need_method("fake_trx", "Application", "clck_handler")
+    F2 = rel("fake_trx")
+    fn2 = "Application.clck_handler"
+    P = params(ch)[1]
+    T = [Opaque("TRX%d" % i) for i in range(3)]
+    calls = []
+
+    def rec(name):
+        def h(a):
+            calls.append((name, tuple(a)))
+        return h
+    e = Ev(repo, ci.mod, env={"self.trx_list.trx_list": list(T), "self.burst_fwd": Opaque("the forwarder"), P: 1325}, self_cls=ci)
+    e.ignore_calls = ("log.", "logging.")
+    e.hooks = {"TRX%d.clck_tick" % i: rec("TRX%d" % i) for i in range(3)}
+    got = []
+    try:
+        for fn_ in (1325, 1326):
+            e.env[P] = fn_
+            del calls[:]
+            e.run_block(ch.body)
+            got.append(list(calls))
+    except (Unknown, Raised):
+        return False
+    L.unit(F2)
+    L.fn(F2, fn2)
+    for fn_, g in zip((1325, 1326), got):
+        L.require("C02.R3", F2, fn2, "tick %d with three registered transceivers: each ticks exactly once, with the forwarder and the frame number" % fn_,
+                  sorted(("TRX%d" % i, (Opaque("the forwarder"), fn_)) for i in range(3)), sorted(g), line=ch.lineno)
+    return True
+
+
+def _r3_dispatch_shape(L, repo):
     ci, ch = repo.need_method("fake_trx", "Application", "clck_handler")
     F2 = rel("fake_trx")
     fn2 = "Application.clck_handler"
